@@ -38,6 +38,9 @@ class ExecSide:
         """Returns (outcome, info) with outcome in done / fault / blocked / bound."""
         ex = self.ex
         n0 = len(ex.pc_trace)
+        # the step limit is per subroutine, like the reference's step bound (a cumulative count made a long history that is run
+        # a second time hit the limit where the reference - counting per subroutine - still reaches its fault)
+        ex.steps = 0
         try:
             hc.drive(ex.execute_subroutine(sub), ex, _on_event)
             out, info = "done", {}
